@@ -1,4 +1,10 @@
 import Rc.Model.PaMap
+import Rc.Model.Update
+/-
+Model side of the C17 line protocol (see harness/src/props/c17.rs).  Tokens that take a PDU
+(`fu mu own wfu`) may carry a session suffix: `2` = two-octet session (`SessionConfig::legacy()`),
+`a` = ADD-PATH (rx + tx) for all 13 families, `2a` = both; none = `SessionConfig::modern()`.
+-/
 namespace Rc.Drv.C17
 open Rc Rc.PaMap
 
@@ -39,6 +45,30 @@ def showOwnList (l : List (Nat × Attr)) : String :=
 
 def typedCodes : List Nat := [1, 2, 3, 4, 5, 6, 7, 8, 9, 10, 16, 17, 18, 20, 21, 25, 32, 35, 128, 255]
 
+/-- `fu`, `fu2`, `fua`, `fu2a` → (four-octet?, ADD-PATH?) -/
+def sessOf (base tok : String) : Option (Bool × Bool) :=
+  if tok = base then some (true, false)
+  else if tok = base ++ "2" then some (false, false)
+  else if tok = base ++ "a" then some (true, true)
+  else if tok = base ++ "2a" then some (false, true)
+  else none
+
+/-- the three PDU consumers of a `pm` line -/
+def pmPdu (s : St) (kind : String) (four ap : Bool) (p : Bytes) : Outcome (St × String) :=
+  match parseUpdate four ap p with
+  | .err => .ok (s, (if kind = "fu" then "F" else if kind = "mu" then "U" else "O") ++ "rej")
+  | .panic => .panic
+  | .ok u =>
+    if kind = "fu" then
+      let m := fromUpdate u; .ok ({ s with a := m }, s!"Fok|{showMap m}")
+    else if kind = "mu" then
+      let m := (mergeUpsert s.a (fromUpdate u)).1; .ok ({ s with a := m }, s!"Uok|{showMap m}")
+    else
+      let m := fromUpdate u
+      let own := typedCodes.filterMap fun c => (ownedGet c u.attrs).map fun a => (c, a)
+      let mp := typedCodes.filterMap fun c => (get c m).map fun a => (c, a)
+      .ok (s, s!"O{showOwnList own}/{showOwnList mp}")
+
 /-- one token of a `pm` line: new state and reply, `none` = bad-op, `some none` = panic -/
 def pmTok (s : St) (tok : String) : Option (Outcome (St × String)) :=
   match tok.splitOn ":" with
@@ -68,34 +98,16 @@ def pmTok (s : St) (tok : String) : Option (Outcome (St × String)) :=
   | ["rnt"] => let m := removeNonTransitives s.a; some (.ok ({ s with a := m }, s!"N|{showMap m}"))
   | ["sw"] => some (.ok (⟨s.b, s.a⟩, s!"W|{showMap s.b}"))
   | ["mg"] => let (a, b) := mergeUpsert s.a s.b; some (.ok (⟨a, b⟩, s!"M{b.length}|{showMap a}"))
-  | ["fu", p] =>
-    match bytesOfHex p with
-    | some p =>
-      match parseUpdate p with
-      | .ok u => let m := fromUpdate u; some (.ok ({ s with a := m }, s!"Fok|{showMap m}"))
-      | .err => some (.ok (s, "Frej"))
-      | .panic => some .panic
-    | none => none
-  | ["mu", p] =>
-    match bytesOfHex p with
-    | some p =>
-      match parseUpdate p with
-      | .ok u => let m := (mergeUpsert s.a (fromUpdate u)).1; some (.ok ({ s with a := m }, s!"Uok|{showMap m}"))
-      | .err => some (.ok (s, "Urej"))
-      | .panic => some .panic
-    | none => none
-  | ["own", p] =>
-    match bytesOfHex p with
-    | some p =>
-      match parseUpdate p with
-      | .ok u =>
-        let m := fromUpdate u
-        let own := typedCodes.filterMap fun c => (ownedGet c u.attrs).map fun a => (c, a)
-        let mp := typedCodes.filterMap fun c => (get c m).map fun a => (c, a)
-        some (.ok (s, s!"O{showOwnList own}/{showOwnList mp}"))
-      | .err => some (.ok (s, "Orej"))
-      | .panic => some .panic
-    | none => none
+  | [k, p] =>
+    let kind : Option (String × (Bool × Bool)) :=
+      match sessOf "fu" k, sessOf "mu" k, sessOf "own" k with
+      | some x, _, _ => some ("fu", x)
+      | _, some x, _ => some ("mu", x)
+      | _, _, some x => some ("own", x)
+      | _, _, _ => none
+    match kind, bytesOfHex p with
+    | some (kind, (four, ap)), some p => some (pmPdu s kind four ap p)
+    | _, _ => none
   | _ => none
 
 def runToks {σ} (f : σ → String → Option (Outcome (σ × String))) : σ → List String → List String → String
@@ -135,31 +147,30 @@ def parseComms (s : String) : Option (List Community) :=
   if s = "-" then some [] else (s.splitOn ",").mapM parseComm
 
 def nhLen (tag : Nat) : Option Nat :=
-  if tag = 0 then some 4 else if tag = 1 then some 16 else if tag = 2 then some 32 else none
+  if tag = 0 then some 4 else if tag = 1 then some 16 else if tag = 2 then some 32
+  else if tag = 3 then some 12 else if tag = 4 then some 24 else if tag = 5 then some 0 else none
 
-/-- the first NLRI of the MP_REACH value after AFI/SAFI parses (`NextHop::skip`, one
-reserved byte, `parse_prefix`) -/
-def mpFirstNlri (afi : Nat) (bs : Bytes) : Outcome Bool :=
+/-- does the first NLRI of the MP_REACH value after AFI/SAFI parse as the workshop's NLRI type
+(`typed_announcements::<_, N>().next()`: `NextHop::skip`, one reserved byte, `N::parse`; `N` is the
+ADD-PATH type of the family in an ADD-PATH session)? -/
+def mpFirstNlri (f : Rc.Nlri.Fam) (ap : Bool) (bs : Bytes) : Outcome Bool :=
   match bs with
   | [] => .ok false
   | l :: r =>
     match takeN (l.toNat + 1) r with
     | none => .ok false
     | some (_, nl) =>
-      match nl with
-      | [] => .ok false
-      | b :: rest =>
-        let bits := b.toNat
-        let nb := (bits + 7) / 8
-        let maxb := if afi = 1 then 4 else 16
-        if maxb < nb then .panic
-        else match takeN nb rest with
-          | none => .ok false
-          | some (p, _) =>
-            if bits % 8 = 0 then .ok true
-            else match p.getLast? with
-              | some x => .ok (x.toNat % (2 ^ (8 - bits % 8)) = 0)
-              | none => .ok true
+      if nl.isEmpty then .ok false
+      else if ap then
+        match (Rc.Nlri.codecAp f).dec nl with
+        | .ok _ => .ok true
+        | .err => .ok false
+        | .panic => .panic
+      else
+        match (Rc.Nlri.codec f).dec nl with
+        | .ok _ => .ok true
+        | .err => .ok false
+        | .panic => .panic
 
 def wsTok (w : Workshop) (tok : String) : Option (Outcome (Workshop × String)) :=
   match tok.splitOn ":" with
@@ -206,36 +217,40 @@ def wsTok (w : Workshop) (tok : String) : Option (Outcome (Workshop × String)) 
       let w' := { w with attrs := m }
       some (.ok (w', s!"R{showRet r}|{showWs w'}"))
     | none => none
-  | ["wfu", mode, p] =>
-    match bytesOfHex p with
-    | some p =>
+  | [k, mode, p] =>
+    match sessOf "wfu" k, bytesOfHex p with
+    | some (four, ap), some p =>
       if mode = "c" ∨ mode = "m" then
-        match parseUpdate p with
+        match parseUpdate four ap p with
         | .err => some (.ok (w, "Urej"))
         | .panic => some .panic
         | .ok u =>
-          let have_ : Outcome Bool :=
-            if mode = "c" then .ok (u.nlri ≠ [])
+          -- (is there a first NLRI of the workshop's type?, is that type IPv4 unicast?)
+          let have_ : Outcome (Bool × Bool) :=
+            if mode = "c" then .ok (u.nlri ≠ [], true)
             else match firstWire 14 u.attrs with
               | some mw =>
                 match mw.value with
                 | a :: b :: s :: r =>
-                  let afi := a.toNat * 256 + b.toNat
-                  let safi := s.toNat
-                  if (afi = 2 ∧ (safi = 1 ∨ safi = 2)) ∨ (afi = 1 ∧ safi = 2) then mpFirstNlri afi r
-                  else .ok false
-                | _ => .ok false
-              | none => .ok false
+                  match Rc.Upd.famOf (a.toNat * 256 + b.toNat, s.toNat) with
+                  | some f =>
+                    -- `typed_announcements` hands out the conventional section when `N` is IPv4
+                    -- unicast and it is not empty (update.rs:445); it was validated when the PDU was parsed
+                    if f = .v4u ∧ u.nlri ≠ [] then .ok (true, true)
+                    else Rc.Upd.mapO (fun x => (x, decide (f = .v4u))) (mpFirstNlri f ap r)
+                  | none => .ok (false, false)
+                | _ => .ok (false, false)
+              | none => .ok (false, false)
           match have_ with
           | .panic => some .panic
           | .err => some .err
-          | .ok false => some (.ok (w, "Unonlri"))
-          | .ok true =>
-            match Workshop.fromUpdate (mode = "c") u with
+          | .ok (false, _) => some (.ok (w, "Unonlri"))
+          | .ok (true, v4u) =>
+            match Workshop.fromUpdate v4u u with
             | some w' => some (.ok (w', s!"Uok|{showWs w'}"))
             | none => some (.ok (w, "Uerr"))
       else none
-    | none => none
+    | _, _ => none
   | _ => none
 
 def handle (ws : List String) : String :=
